@@ -449,6 +449,9 @@ impl Hasher for RecHasher {
         (self.0).0
     }
     fn write(&mut self, bytes: &[u8]) {
+        // sensitive to how the byte stream is cut into write() calls, like word-at-a-time
+        // hashers are: equal buffers must produce the same *sequence of calls*
+        self.0.write_u64(bytes.len() as u64);
         self.0.write(bytes);
     }
 }
